@@ -453,11 +453,26 @@ impl Monitor for C16 {
                     }
                 }
             }
-            eng::ExecuteMsg::Liquidate { .. } => {
+            eng::ExecuteMsg::Liquidate { trader, .. } => {
                 if st.out.ok {
                     self.liq_block.insert(vi, h);
                     r.count("liquidations");
                     r.case(format!("liquidation|{}", reply_path(w, &st.out)));
+                } else if st.out.err_text().contains("Only one action allowed") {
+                    // the restriction is about a trader opening, modifying or closing his own position again; a liquidation
+                    // is none of these, and its sender is not restricted by what happened to somebody else's position
+                    let liq_here = self.liq_block.get(&vi) == Some(&h);
+                    let victim_touched = self.touched.get(&(vi, trader.trim().to_string())) == Some(&h);
+                    r.violation(
+                        "C16",
+                        "R2-restricted-without-cause",
+                        format!("R2|liquidate|liq_in_block={}|victim_touched={}", liq_here, victim_touched),
+                        format!("Liquidate of {} by {} refused with the restriction error in block {}", trader, sender, h),
+                        st.seq,
+                    );
+                }
+                if self.liq_block.get(&vi) == Some(&h) && st.pre.pos(vi, trader.trim()).is_some() {
+                    r.count("liquidation-attempts-in-a-liquidation-block");
                 }
             }
             _ => {}
